@@ -59,7 +59,7 @@ STATEMENTS = [
 ]
 
 FUNCTION_STATEMENTS = [
-    'return None', 'return', 'return None\npass', 'value = 1\nreturn None', 'value = 1\nreturn', 'if value:\n    return None\nreturn 1',
+    'return None', 'return', 'return None\npass', 'value = 1\nreturn\nreturn', 'return None\nreturn None', 'value = 1\nreturn None\nreturn\nreturn None', 'value = 1\nreturn None', 'value = 1\nreturn', 'if value:\n    return None\nreturn 1',
     'def inner():\n    return None', 'return (None)', 'return None if value else 1', 'yield\nreturn None', 'return not None',
     # a valueless return that ends a *block* is not redundant unless the block also ends the function
     'try:\n    first_call()\n    return\nexcept SomeError:\n    second_call()\nelse:\n    third_call()',
